@@ -40,9 +40,11 @@ Ltac use_slice l lo hi x Hx :=
 
 (* ------------------------------------------------------------------ lexer *)
 Lemma adj_loop_ok toks base : forall cnt i,
-  0 <= base + i -> base + i + Z.of_nat cnt < len toks -> exists b, adj_loop toks base i cnt = Ok b.
+  0 <= base + i -> (0 < Z.of_nat cnt -> base + i + Z.of_nat cnt < len toks) ->
+  exists b, adj_loop toks base i cnt = Ok b.
 Proof.
   induction cnt as [|c IH]; intros i H0 H1; cbn [adj_loop]; [eauto|].
+  assert (base + i + Z.of_nat (S c) < len toks) by (apply H1; lia).
   use_idx toks (base + i) t Ht. use_idx toks (base + i + 1) nx Hnx.
   destruct (_ || _); [eauto|]. apply IH; lia.
 Qed.
@@ -204,8 +206,8 @@ Lemma macro_strip_no_panic semi toks : macro_strip true semi toks <> Panic.
 Proof.
   apply ok_not_panic. unfold macro_strip. cbn [andb]. pose proof (len_nonneg toks).
   destruct (Z.eqb_spec (len toks) 0); [eauto|].
-  use_idx toks (len toks - 1) lt Hlt.
-  destruct (tok_is lt semi); [|eauto]. apply slice_ok; lia.
+  use_idx toks (len toks - 1) ltk Hltk.
+  destruct (tok_is ltk semi); [|eauto]. apply slice_ok; lia.
 Qed.
 
 Lemma macro_strip_old_refuted : exists semi, macro_strip false semi [] = Panic.
@@ -318,7 +320,7 @@ Proof.
   unfold g_reslice. unfold gsl_ok in Hs, Hok1. rewrite Harr1.
   destruct (Z.ltb_spec (ti + 1) 0); [lia|]. destruct (Z.ltb_spec (len (tarr s)) (ti + 1)); [lia|].
   cbn [orb bind].
-  destruct (g_idx_ok {| tarr := tarr s1; tln := ti + 1 |} ti) as [t2 Ht2].
-  { unfold gsl_ok. cbn. rewrite Harr1. lia. } { cbn. lia. }
+  destruct (g_idx_ok {| tarr := tarr s; tln := ti + 1 |} ti) as [t2 Ht2].
+  { unfold gsl_ok. cbn. lia. } { cbn. lia. }
   rewrite Ht2. cbn [bind]. eauto.
 Qed.
